@@ -70,7 +70,7 @@ def main():
     head = sh("git -C /repo log --format=%h -1")[1].strip()
     try:
         stored = os.path.abspath(src) == os.path.join(ROOT, "seeded")
-        pattern = os.path.join(src, "C[0-9][0-9]", "A*-m[0-9]*") if stored else os.path.join(src, "C[0-9][0-9]", "m[0-9]*")
+        pattern = os.path.join(src, "C[0-9][0-9]", "[A-Z]*-m[0-9]*") if stored else os.path.join(src, "C[0-9][0-9]", "m[0-9]*")
         for d in sorted(glob.glob(pattern)):
             prop, mn = d.split("/")[-2:]
             if stored:
